@@ -31,11 +31,14 @@
 EXTENDS BctGraph, BctRational, SequencesExt, Functions
 
 (* ======================= patterns, codes, canonical form ===================== *)
+(* TLC keeps {x \in S : P(x)} and [x \in S |-> e] as unevaluated closures even when they *)
+(* are cached constants; TLCEval turns them into enumerated tables once                   *)
+Tab(x) == TLCEval(x)
 NC(K) == K * (K - 1)
 CellsOf(K) == SelectSeq([t \in 1..(K * K) |-> <<((t - 1) % K) + 1, ((t - 1) \div K) + 1>>],
                         LAMBDA c : c[1] # c[2])
-Cells3 == CellsOf(3)     \* (2,1),(3,1),(1,2),(3,2),(1,3),(2,3)
-Cells4 == CellsOf(4)
+Cells3 == Tab(CellsOf(3))     \* (2,1),(3,1),(1,2),(3,2),(1,3),(2,3)
+Cells4 == Tab(CellsOf(4))
 Cells(K) == IF K = 3 THEN Cells3 ELSE Cells4
 CellIndex(K, i, j) == (j - 1) * (K - 1) + (IF i < j THEN i ELSE i - 1)   \* inverse of Cells(K)
 Wt(K, t) == 2 ^ (NC(K) - t)
@@ -43,8 +46,8 @@ NCodes(K) == 2 ^ NC(K)
 AllCodes(K) == 0..(NCodes(K) - 1)
 
 BitsOfRaw(K, c) == {t \in 1..NC(K) : (c \div Wt(K, t)) % 2 = 1}
-BT3 == Force([c \in AllCodes(3) |-> BitsOfRaw(3, c)])
-BT4 == Force([c \in AllCodes(4) |-> BitsOfRaw(4, c)])
+BT3 == Tab([c \in AllCodes(3) |-> BitsOfRaw(3, c)])
+BT4 == Tab([c \in AllCodes(4) |-> BitsOfRaw(4, c)])
 BitsOf(K, c) == IF K = 3 THEN BT3[c] ELSE BT4[c]
 CodeOfBits(K, B) == Sum(B, LAMBDA t : Wt(K, t))
 EdgesOf(K, c) == {Cells(K)[t] : t \in BitsOf(K, c)}
@@ -59,16 +62,16 @@ GrowE(E, S) ==
 WeaklyConnected(K, E) == GrowE(E, {1}) = 1..K
 
 PermsOf(K) == {p \in [1..K -> 1..K] : \A i, j \in 1..K : i # j => p[i] # p[j]}
-Perms3 == PermsOf(3)
-Perms4 == PermsOf(4)
+Perms3 == Tab(PermsOf(3))
+Perms4 == Tab(PermsOf(4))
 Perms(K) == IF K = 3 THEN Perms3 ELSE Perms4
 Relabel(E, p) == {<<p[e[1]], p[e[2]]>> : e \in E}
 (* the orbit of a pattern: relabelling the nodes by p moves cell (i,j) to cell    *)
 (* (p[i],p[j]); CellWts(K) holds, per permutation, the weight of the moved cell   *)
-CellWtsOf(K) == {Force([t \in 1..NC(K) |-> Wt(K, CellIndex(K, p[Cells(K)[t][1]], p[Cells(K)[t][2]]))])
+CellWtsOf(K) == {Tab([t \in 1..NC(K) |-> Wt(K, CellIndex(K, p[Cells(K)[t][1]], p[Cells(K)[t][2]]))])
                    : p \in Perms(K)}
-CW3 == CellWtsOf(3)
-CW4 == CellWtsOf(4)
+CW3 == Tab(CellWtsOf(3))
+CW4 == Tab(CellWtsOf(4))
 CellWts(K) == IF K = 3 THEN CW3 ELSE CW4
 Orbit(K, c) == {Sum(BitsOf(K, c), LAMBDA t : w[t]) : w \in CellWts(K)}
 OrbitByRelabel(K, c) == {CodeOfEdges(K, Relabel(EdgesOf(K, c), p)) : p \in Perms(K)}   \* MC: = Orbit
@@ -77,14 +80,14 @@ Canon(K, c) == MinSet(Orbit(K, c))
 Converse(K, c) == CodeOfEdges(K, {<<e[2], e[1]>> : e \in EdgesOf(K, c)})
 
 (* tables, evaluated once                                                        *)
-CT3 == Force([c \in AllCodes(3) |-> Canon(3, c)])
-CT4 == Force([c \in AllCodes(4) |-> Canon(4, c)])
+CT3 == Tab([c \in AllCodes(3) |-> Canon(3, c)])
+CT4 == Tab([c \in AllCodes(4) |-> Canon(4, c)])
 ClassTab(K) == IF K = 3 THEN CT3 ELSE CT4
-Conn3 == {c \in AllCodes(3) : WeaklyConnected(3, EdgesOf(3, c))}
-Conn4 == {c \in AllCodes(4) : WeaklyConnected(4, EdgesOf(4, c))}
+Conn3 == Tab({c \in AllCodes(3) : WeaklyConnected(3, EdgesOf(3, c))})
+Conn4 == Tab({c \in AllCodes(4) : WeaklyConnected(4, EdgesOf(4, c))})
 ConnCodes(K) == IF K = 3 THEN Conn3 ELSE Conn4
-Classes3 == {CT3[c] : c \in Conn3}
-Classes4 == {CT4[c] : c \in Conn4}
+Classes3 == Tab({CT3[c] : c \in Conn3})
+Classes4 == Tab({CT4[c] : c \in Conn4})
 Classes(K) == IF K = 3 THEN Classes3 ELSE Classes4
 NumClasses(K) == IF K = 3 THEN 13 ELSE 199          \* MC: = Cardinality(Classes(K))
 ClassMembers(K, cl) == {c \in ConnCodes(K) : ClassTab(K)[c] = cl}
@@ -97,7 +100,7 @@ AscTuple(S) == SetToSortSeq(S, <)
 SubCode(K, G, S) == TupCode(K, G, AscTuple(S))
 ConnSubs(n, G, K) == {S \in kSubset(K, 1..n) : SubCode(K, G, S) \in ConnCodes(K)}
 (* structural occurrences: connected K-subset |-> its class                      *)
-StructOcc(n, G, K) == Force([S \in ConnSubs(n, G, K) |-> ClassTab(K)[SubCode(K, G, S)]])
+StructOcc(n, G, K) == Tab([S \in ConnSubs(n, G, K) |-> ClassTab(K)[SubCode(K, G, S)]])
 StructTotal(occ, cl) == Cardinality({S \in DOMAIN occ : occ[S] = cl})
 StructNode(occ, cl, v) == Cardinality({S \in DOMAIN occ : occ[S] = cl /\ v \in S})
 
@@ -112,10 +115,10 @@ FunctNode(K, occs, cl, v) == Cardinality({o \in occs : ClassTab(K)[o[2]] = cl /\
 BagGet(b, x) == IF x \in DOMAIN b THEN b[x] ELSE 0
 SubClassBag(K, c) ==
   LET subs == SubPatterns(K, c)
-  IN Force([cl \in {ClassTab(K)[d] : d \in subs} |->
+  IN Tab([cl \in {ClassTab(K)[d] : d \in subs} |->
                Cardinality({d \in subs : ClassTab(K)[d] = cl})])
-SB3 == Force([cl \in Classes3 |-> SubClassBag(3, cl)])
-SB4 == Force([cl \in Classes4 |-> SubClassBag(4, cl)])
+SB3 == Tab([cl \in Classes3 |-> SubClassBag(3, cl)])
+SB4 == Tab([cl \in Classes4 |-> SubClassBag(4, cl)])
 SubBagTab(K) == IF K = 3 THEN SB3 ELSE SB4
 FunctTotalVia(K, occ, cl) == Sum(DOMAIN occ, LAMBDA S : BagGet(SubBagTab(K)[occ[S]], cl))
 FunctNodeVia(K, occ, cl, v) ==
@@ -198,15 +201,15 @@ CanonLabel(K, c) ==
   LET rows == DegRows(K, c)
       order == SetToSortSeq(1..K, LAMBDA a, b : LexLess(rows[a], rows[b]) \/ (rows[a] = rows[b] /\ a < b))
   IN Flatten([k \in 1..K |-> rows[order[k]]])
-GenCodes(K) == {c \in AllCodes(K) : GenConnected(K, c)}
-LabelTab(K) == Force([c \in GenCodes(K) |-> CanonLabel(K, c)])
+GenCodes(K) == Tab({c \in AllCodes(K) : GenConnected(K, c)})
+LabelTab(K) == Tab([c \in GenCodes(K) |-> CanonLabel(K, c)])
 Mika(id) == CASE id = 1 -> 3 [] id = 3 -> 6 [] id = 4 -> 1 [] id = 6 -> 11
               [] id = 7 -> 4 [] id = 8 -> 7 [] id = 11 -> 8 [] OTHER -> id
 GenIdTab(K) ==
   LET lt == LabelTab(K)
-      labels == Range(lt)
-      rank == Force([l \in labels |-> 1 + Cardinality({m \in labels : LexLess(m, l)})])
-  IN Force([c \in DOMAIN lt |-> IF K = 3 THEN Mika(rank[lt[c]]) ELSE rank[lt[c]]])
+      labels == Tab(Range(lt))
+      rank == Tab([l \in labels |-> 1 + Cardinality({m \in labels : LexLess(m, l)})])
+  IN Tab([c \in DOMAIN lt |-> IF K = 3 THEN Mika(rank[lt[c]]) ELSE rank[lt[c]]])
 GenId3 == GenIdTab(3)
 GenId4 == GenIdTab(4)
 GenId(K) == IF K = 3 THEN GenId3 ELSE GenId4
